@@ -27,7 +27,7 @@ type c04SweepIn struct {
 func c04GenSweep(rt *rapid.T) c04SweepIn {
 	code, k, jt, z := vpGenProgram(rt, false, 10)
 	pages := vpGenPages(rt)
-	st := vpState{Blob: vpAssemble(code, k, jt, z), Pages: pages, Regs: vpGenRegs(rt, pages), Gas: 400, Host: vpGenHost(rt)}
+	st := vpState{Blob: vpAssembleGen(rt, code, k, jt, z), Pages: pages, Regs: vpGenRegs(rt, pages), Gas: 400, Host: vpGenHost(rt)}
 	return c04SweepIn{St: st}
 }
 
